@@ -9,6 +9,7 @@ namespace Pulser
 /-- Declarative "inside every limit of the channel" (C01); `maxW`/`sumW` are the
 maximum and the sum of the detuning-map weights of a DMM. -/
 def WithinLimits (cfg : ChanCfg) (maxW sumW : Rat) (σ : PulseSummary) : Prop :=
+  σ.finite = true ∧
   (∀ m, cfg.maxAmp = some m → σ.maxAmp ≤ m) ∧
   (∀ m, cfg.maxAbsDet = some m → σ.maxAbsDetR ≤ m) ∧
   ¬ (0 < σ.avgAmp ∧ σ.avgAmp < cfg.minAvgAmp) ∧
